@@ -718,6 +718,10 @@ var resultPrograms = []string{
 	`$append(page, 99)`, `s`, `$merge([one])`, `[nums, s]`, `items[q >= 0]`, `$reverse(s)`, `$distinct(dups)`,
 	`{"a": nums, "b": one}`, `$map(items, function($i){$i})`, `$zip(nums, s)`, `$filter(s, function($v){true})`,
 	`$append(nums, nums)`, `$append(dups, "t")`, `items.p`, `$spread(one)`, `$sift(one, function($v){true})`,
+	// comparator sorts of arrays of every small length (0, 1, 2, 3 elements)
+	`$sort([one], function($a, $b){true})`, `$sort(items[q > $$.id], function($a, $b){$a.q > $b.q})`,
+	`$sort([], function($a, $b){$a > $b})`, `$sort(nums[[0, 1]], function($a, $b){$a > $b})`,
+	`$sort(s, function($a, $b){$a > $b})`, `$sort([nums[0]], function($a, $b){$a > $b})`,
 }
 
 var prevPrograms = []string{
@@ -726,6 +730,8 @@ var prevPrograms = []string{
 	`$merge([$prev, {"k": 1}])`, `$string($prev)`, `$append($prev, $prev)`, `$prev[$ != 2]`, `$prev[true][$ != 2]`,
 	`$sort($prev, function($a, $b){$string($a) > $string($b)})`, `$ ~> |$prev|{"w": 1}|`, `$append($prev, $$.nums)`,
 	`$prev.a ~> $append(7)`, `$each($prev, function($v){$v})`, `$prev ~> $append(3) ~> $append(4)`,
+	`$sort($$.s, function($a, $b){$a > $b})`, `$sort($$.nums, function($a, $b){$a < $b})`, `$sort($$.items, function($a, $b){$a.q > $b.q})`,
+	`$sort([$$.nest], function($a, $b){true})`, `$sort($prev, function($a, $b){true})`,
 }
 
 // ---- C19: clock ------------------------------------------------------------------
